@@ -9,7 +9,7 @@ Line protocol of the C20 model (one s-expression in, one out).
   STATE = ((x n) ...)          variables not listed are 0
   STR   = atom, percent-encoded as in harness/common/sexp.py
 
-  (vcs COM PRE POST)        -> (ok ACOM (E ...) (STR ...) (wsCom wfCpre wfCpost allVCswfC))   annotated command, VCs, printed VCs, hypotheses of the theorems
+  (vcs COM PRE POST)        -> (ok ACOM (E ...) (STR ...) (wsCom&&okCom okEpre okEpost allVCsokE))   annotated command, VCs, printed VCs, hypotheses of the theorems
   (vcsh COM PRE POST)       -> (E ...)                        conditions of imp.vcg (no `== true` shortcut)
   (wf E)                    -> (wfC wfA tyC tyA)              each T | F
   (ws COM)                  -> T | F                          wsCom
@@ -139,7 +139,7 @@ def handle (line : String) : String :=
       let a := computeWp c [p] q
       let vcs := getVcs a
       toString (Sexp.list [.atom "ok", acomTo a, exprsTo vcs, .list (vcs.map fun v => .atom (enc (pp v))),
-        .list [Sexp.ofBool (wsCom c), Sexp.ofBool (wfC p), Sexp.ofBool (wfC q), Sexp.ofBool (vcs.all fun v => wfC v && namesOK v)]])
+        .list [Sexp.ofBool (wsCom c && okCom c), Sexp.ofBool (okE p), Sexp.ofBool (okE q), Sexp.ofBool (vcs.all okE)]])
     | _, _, _ => "bad-op"
   | some (.list [.atom "vcsh", c, p, q]) =>
     match comOf c, exprOf p, exprOf q with
